@@ -209,9 +209,32 @@ RO_MUTATIONS = ["args-append", "args-set", "kwargs-set", "modes-append", "op-ren
                 "target-option", "target-name", "type-option", "modes-add", "list-kwarg-append", "array-arg"]
 
 
+def _template_with_numeric_array(rng):
+    """a template that also holds a purely numeric array, used as an operation argument: instances must own their copy of it"""
+    rows, cols = rng.randrange(1, 3), rng.randrange(1, 4)
+    typ = G.pick(rng, ["float", "complex", "int"])
+    def el():
+        x = rng.randrange(-40, 40)
+        return str(x) if typ == "int" else ("%d.%d" % (x, rng.randrange(10)) if typ == "float" else "%d.5+%dj" % (x, rng.randrange(1, 9)))
+    body = "\n".join("\t" + ", ".join(el() for _ in range(cols)) for _ in range(rows))
+    shape = "[%d, %d]" % (rows, cols) if rng.random() < 0.5 else ""
+    s = "name tmpl\nversion 1.0\n\n%s array A%s =\n%s\n\nSgate({alpha}, 0.%d) | 0\nInterferometer(A) | [0, 1]\n" % (typ, shape, body, rng.randrange(1, 9))
+    if rng.random() < 0.5:
+        s += "Ugate(U=A, phi={beta}) | 1\n"
+    steps = [{"do": "call", "seed": rng.randrange(1000), "style": "float"}, {"do": "call", "seed": rng.randrange(1000), "style": "float"}]
+    for _ in range(rng.randrange(1, 4)):
+        steps.append({"do": "mutate", "instance": rng.randrange(2), "how": G.pick(rng, ["var-array", "array-arg"])})
+        if rng.random() < 0.4:
+            steps.append({"do": G.pick(rng, ["dumps", "digraph", "attrs"])})
+    return {"class": "script/template-numeric-array", "input": {"source": {"script": s}, "steps": steps}}
+
+
 def ro_cases(rng, n, tier):
     for _ in range(n):
         r = rng.random()
+        if r > 0.93:
+            yield _template_with_numeric_array(rng)
+            continue
         if r < 0.6:
             focus = G.pick(rng, ["params-prefix-names", "params-kw-list", "params-mixed", "params-mixed", "mixed", "mixed", "regrefs", "regrefs-kw",
                                  "arrays-as-args", "tdm", "literals", "param-array-arg", "kwargs-lists", "for-loop-modes"])
@@ -429,7 +452,12 @@ def dg_check(case):
     p = blackbird.loads(inp["script"])
     if len(p.operations) != len(desc) or any(o["op"] != d["op"] or [int(m) for m in o["modes"]] != d["modes"] for o, d in zip(p.operations, desc)):
         return {"class": "precondition/load-differs-from-description", "expected": desc, "actual": repr(p.operations)[:800]}
-    g = to_DiGraph(p)
+    return dg_graph_check(p, to_DiGraph(p), desc, inp["script"])
+
+
+def dg_graph_check(p, g, desc, key):
+    """the oracle of C16 for graph g of program p whose operations are described by desc (op, modes, registers)"""
+    import networkx as nx
     n = len(desc)
     if sorted(g.nodes) != list(range(n)):
         return {"expected": "exactly one node per operation: %s" % list(range(n)), "actual": "nodes %s" % sorted(g.nodes)}
@@ -463,7 +491,7 @@ def dg_check(case):
                                                                                         [sorted(w) for w in wires]),
                         "actual": "edges %s" % sorted(g.edges)}
     for t in range(6):
-        order = _random_topo(g, "%s/%d" % (inp["script"], t)) if t else list(nx.topological_sort(g))
+        order = _random_topo(g, "%s/%d" % (key, t)) if t else list(nx.topological_sort(g))
         if sorted(order) != list(range(n)):
             return {"expected": "a topological order of all operations", "actual": order}
         pos = {v: k for k, v in enumerate(order)}
@@ -651,6 +679,15 @@ def hs_check(case):
         for it in inp["items"]:
             if "script" in it:
                 items.append({"script": it["script"]})
+            elif "files" in it:                                    # literal tree {relative path: text}, entry point it["main"]
+                root = os.path.realpath(tempfile.mkdtemp(prefix="bb_hs_"))
+                roots.append(root)
+                for rel, text in it["files"].items():
+                    path = os.path.join(root, rel)
+                    os.makedirs(os.path.dirname(path), exist_ok=True)
+                    with open(path, "w") as f:
+                        f.write(text.replace("@ROOT@", root))
+                items.append({"path": os.path.join(root, it["main"])})
             else:
                 root = os.path.realpath(tempfile.mkdtemp(prefix="bb_hs_"))
                 roots.append(root)
@@ -683,7 +720,7 @@ def hs_check(case):
                 (a, sa), (b, sb) = sorted(variants.items(), key=lambda kv: kv[1])[:2]
                 la, lb = a.split("\n"), b.split("\n")
                 diff = [(x, y) for x, y in zip(la, lb) if x != y] or [(a, b)]
-                src = it.get("script") or _clip("\n".join("### %s\n%s" % kv for kv in sorted(G.include_files(it["include"]).items())), 2000)
+                src = it.get("script") or _clip("\n".join("### %s\n%s" % kv for kv in sorted((it.get("files") or G.include_files(it["include"])).items())), 2000)
                 return {"class": it["class"], "expected": "one description for all PYTHONHASHSEED values %s; item %d:\n%s" % (inp["seeds"], k, src),
                         "actual": "%d distinct; seeds %s: %s  vs  seeds %s: %s" % (len(variants), sa, _clip(diff[0][0], 500), sb, _clip(diff[0][1], 500))}
         return None
